@@ -481,6 +481,10 @@ func VerifC11Order() {
 		elemSels = []string{".x", ".x?"}
 	}
 	s := c11Gen("s", vParam("DEPTH"), c11TopSelsAny, []string{".l", ".l?", ".m", ".m?"}, elemSels)
+	if vChoose("under_not", 2) == 1 {
+		// the four-valued results of and/or/all/any are only told apart under a not
+		s = &c11Stmt{op: c11OpNot, subs: []*c11Stmt{s}}
+	}
 	pol := c11Policy(s)
 	node := d.node()
 	m1, _ := pol.Match(node)
